@@ -36,9 +36,9 @@ RULE = ("one call per case of is_ccw_polyline / is_ccw_polygon / point_in_polygo
         "sort_triangle_edges / half_space_interior_point (exact oracle only). Coordinates are small integers or dyadics (exact in binary64). "
         "Polygons: convex hulls, star-shaped, rectilinear non-convex templates (L, U, comb, stairs, C, plus) and a dented quad, both orientations, "
         "random start vertex; query points: vertices, points on edges, points on the EXTENSION of edges, half-integer lattice points. "
-        "Polyhedra: tetrahedra, boxes (quadrilateral faces, Delaunay path), triangular prisms, prisms over the non-convex polygons (ear-clipped, "
-        "conforming), optionally sheared by an invertible integer matrix, faces in random order/orientation; query points: vertices, points on faces/edges, "
-        "convex combinations, half-integer lattice points. Point sets: exactly collinear/planar, one point off (first, middle, LAST), duplicates, "
+        "Polyhedra: tetrahedra, boxes (quadrilateral faces, Delaunay path), boxes with a pyramidal dent (re-entrant vertex) or roof, triangular prisms, "
+        "prisms over the non-convex polygons (ear-clipped, conforming), optionally sheared by an invertible integer matrix, faces in random order/orientation; query points: vertices, points on faces/edges, "
+        "points on the LINE through two vertices of a face beyond its ends and in the PLANE of a face (inside and outside the body), convex combinations, half-integer lattice points. Point sets: exactly collinear/planar, one point off (first, middle, LAST), duplicates, "
         "first two points equal, random; tolerances 0, 1e-8, 1e-5 (is_ccw_polyline also 1/2, 3, 40 so that the band is hit). Half spaces: 0-6 planes, "
         "points on the boundary, malformed shapes. Line pairs: simple cycles and paths over distinct node ids with random column order and flips, "
         "both modes, with/without check_circular, an extra data row (colliding or not with node ids), malformed: two components, branching, wrong mode, "
@@ -382,18 +382,35 @@ def _mesh_extrusion(rng, poly, h):
     return v, faces
 
 
+def _mesh_dented_box(rng):
+    """box [0,a]x[0,b]x[0,c] whose top face is replaced by the four triangles (top corner i, top corner
+    i+1, apex); an apex strictly inside the box gives a pyramidal DENT with a re-entrant vertex (the
+    continuations of the four edges to the apex beyond the apex, and the planes of the four dent
+    triangles, run through the interior of the body), an apex above the top gives a roof"""
+    a, b, c = rng.randint(2, 4), rng.randint(2, 4), rng.randint(2, 4)
+    dent = rng.random() < 0.8
+    apex = [rng.randint(1, a - 1), rng.randint(1, b - 1), rng.randint(1, c - 1) if dent else c + rng.randint(1, 2)]
+    s = rng.choice([1, 1, 2])
+    v = [[0, 0, 0], [a, 0, 0], [a, b, 0], [0, b, 0], [0, 0, c], [a, 0, c], [a, b, c], [0, b, c], apex]
+    v = [[s * x for x in p] for p in v]
+    faces = [[0, 1, 2, 3], [0, 1, 5, 4], [1, 2, 6, 5], [2, 3, 7, 6], [3, 0, 4, 7], [4, 5, 8], [5, 6, 8], [6, 7, 8], [7, 4, 8]]
+    return v, faces, "dented-box" if dent else "roofed-box"
+
+
 def _gen_mesh(rng):
     r = rng.random()
-    if r < 0.2:
+    if r < 0.3:
+        v, faces, cls = _mesh_dented_box(rng)
+    elif r < 0.4:
         v, faces = _mesh_tetra(rng)
         cls = "tetra"
-    elif r < 0.4:
+    elif r < 0.5:
         a, b, c = rng.randint(1, 3), rng.randint(1, 3), rng.randint(1, 3)
         v, faces = _mesh_extrusion(rng, [[0, 0], [a, 0], [a, b], [0, b]], c)
         # the box is given with quadrilateral top and bottom as well
         faces = [[0, 1, 2, 3], [4, 5, 6, 7]] + [f for f in faces if len(f) == 4]
         cls = "box"
-    elif r < 0.55:
+    elif r < 0.6:
         while True:
             tri = [[rng.randint(-3, 3), rng.randint(-3, 3)] for _ in range(3)]
             if area2(tri) != 0:
@@ -442,7 +459,20 @@ def _query_points_3d(rng, v, faces, k):
             if sum(w) == 0:
                 w[0] = 1
             out.append([sum(F(wi, sum(w)) * v[i][c] for wi, i in zip(w, f)) for c in range(3)])  # on a face / edge
-        elif r < 0.5:
+        elif r < 0.4:
+            # on the LINE through two vertices of a face (an edge or a diagonal of the face), mostly beyond its
+            # end points: inside the body this happens behind re-entrant vertices / edges
+            f = rng.choice(faces)
+            i, j = rng.sample(f, 2)
+            t = F(rng.choice([-4, -3, -2, -1, 1, 2, 3, 5, 6, 7, 8, 10, 12]), 4)
+            out.append([v[i][c] + t * (v[j][c] - v[i][c]) for c in range(3)])
+        elif r < 0.55:
+            # in the PLANE of a face, anywhere (inside the face, on the continuation of the face inside or outside the body)
+            f = rng.choice(faces)
+            i, j, k = rng.sample(f, 3)
+            t1, t2 = F(rng.randint(-6, 10), 4), F(rng.randint(-6, 10), 4)
+            out.append([v[i][c] + t1 * (v[j][c] - v[i][c]) + t2 * (v[k][c] - v[i][c]) for c in range(3)])
+        elif r < 0.7:
             # barycentre-like combination of all vertices: mostly interior for convex bodies
             w = [rng.randint(0, 2) for _ in v]
             if sum(w) == 0:
@@ -674,7 +704,7 @@ def _gen_case(rng, tier):
         v, faces, cls = _gen_mesh(rng)
         if kind == "polyhedron" and rng.random() < 0.5:
             faces = [list(t) for t in _mesh_tris(v, faces)]  # all-triangle description (no Delaunay)
-        pts = _query_points_3d(rng, v, faces, rng.randint(2, 6 if not big else 12))
+        pts = _query_points_3d(rng, v, faces, rng.randint(3, 8 if not big else 14))
         # random start / direction of every face's vertex loop
         ff = []
         for f in faces:
@@ -1131,7 +1161,8 @@ def oracle(case):
                 if c == "in":
                     # is the point in the plane of some face (the known failure mode)?
                     inplane = any(vdot(cross3(vsub(b, a), vsub(cc, a)), vsub(q, a)) == 0 for a, b, cc in tris)
-                    key = "interior-point-in-plane-of-a-face" if inplane else "inside-missed"
+                    online = any(cross3(vsub(y, x), vsub(q, x)) == [0, 0, 0] for t3 in tris for x, y in ((t3[0], t3[1]), (t3[1], t3[2]), (t3[2], t3[0])))
+                    key = "interior-point-on-line-of-an-edge" if online else ("interior-point-in-plane-of-a-face" if inplane else "inside-missed")
                 else:
                     key = "outside-accepted" if c == "out" else "boundary-accepted"
                 return fail(f"point {[str(x) for x in q]} is '{c}' of the {case['cls']} with vertices {case['v']} faces {case['faces']}, returned {bool(r)}", key)
@@ -1145,9 +1176,11 @@ def oracle(case):
             c = classify_polyhedron(tris, q)
             inplane = any(vdot(cross3(vsub(b, a), vsub(cc, a)), vsub(q, a)) == 0 for a, b, cc in tris)
             if isinstance(r, str):
-                # documented ValueError: the point is coplanar with a triangle (or on an edge line / a vertex)
-                if not inplane:
-                    return fail(f"point {[str(x) for x in q]} is in no face plane but winding_number raised '{r}'", "spurious-degeneracy")
+                # documented ValueError: the point is ON the surface (vertex, edge, triangle). A point that is merely in the
+                # plane of a triangle or on the line of an edge, but off the surface, has a well defined winding number.
+                if c != "bd":
+                    return fail(f"point {[str(x) for x in q]} is '{c}' (off the surface, in a face plane: {inplane}) of the {case['cls']} {case['v']} "
+                                f"but winding_number raised '{r}'", "raises-off-surface")
                 continue
             if c == "bd":
                 continue
